@@ -171,7 +171,7 @@ PCV_OP(pi64)  { Quiet q; return pi_entry("pi64", a.at(0)); }
 PCV_OP(pi128) { Quiet q; return pi_entry("pi128", a.at(0)); }
 PCV_OP(cpi)   { Quiet q; return pi_entry("cpi", a.at(0)); }
 // string entry points: the argument travels hex-encoded
-PCV_OP(pistr)  { Quiet q; return pi_entry("pistr", unhex(a.at(0))); }
+PCV_OP(pi_pistr)  { Quiet q; return pi_entry("pistr", unhex(a.at(0))); }
 PCV_OP(pi_cpistr) { Quiet q; return pi_entry("cpistr", unhex(a.at(0))); }
 // pi_cli <args...> : "<exit status>:<stdout>:<stderr class>"
 PCV_OP(pi_cli) { return cli_line(a); }
